@@ -160,6 +160,8 @@ class State:
         s.known = set(self.known)
         if getattr(self, "swaps", None):
             s.swaps = dict(self.swaps)
+        if getattr(self, "pundef", None):
+            s.pundef = set(self.pundef)
         return s
 
     def assume(self, t):
@@ -191,6 +193,8 @@ def _merge2(a, b):
     s = State()
     if getattr(a, "swaps", None):
         s.swaps = dict(a.swaps)
+    if getattr(a, "pundef", None) or getattr(b, "pundef", None):
+        s.pundef = set(getattr(a, "pundef", ())) | set(getattr(b, "pundef", ()))
     s.pc = a.pc[:n] + [z3.Or(ca, cb)]
     s.known = set(x.get_id() for x in s.pc)
     s.types = dict(b.types)
